@@ -160,6 +160,10 @@ func (g *G) Msg(o MsgOpts) MsgSpec {
 		if o.ValidStatus || o.Canonical {
 			code = g.R.Range(100, 699)
 		}
+		if o.VerCase && g.R.Chance(1, 6) {
+			// three digits are three digits: a status line is a reply whatever its number (C08)
+			code = g.R.PickInt(0, 0, 1, 99, 7)
+		}
 		reason := ""
 		switch g.R.Intn(4) {
 		case 0:
